@@ -82,8 +82,22 @@ func New() *FS {
 		panic(err)
 	}
 	fs := &FS{Dir: dir, Files: map[string]*File{}, KeepLog: true}
-	util.VerifFileOp = fs.Handle
+	all = append(all, fs)
+	util.VerifFileOp = dispatch
 	return fs
+}
+
+var all []*FS
+
+// dispatch routes an operation to the FS instance that owns the path (several instances may
+// coexist, e.g. one for the search and one for from-scratch replays).
+func dispatch(kind, path string, value int) (bool, int, error) {
+	for _, fs := range all {
+		if _, ok := fs.Files[path]; ok {
+			return fs.Handle(kind, path, value)
+		}
+	}
+	return false, 0, nil
 }
 
 // Reset forgets files and log but keeps the directory (fast re-use across executions).
@@ -92,11 +106,17 @@ func (fs *FS) Reset() {
 	fs.Log = fs.Log[:0]
 	fs.Intercept = nil
 	fs.NOps = 0
-	util.VerifFileOp = fs.Handle
+	util.VerifFileOp = dispatch
 }
 
 func (fs *FS) Close() {
-	util.VerifFileOp = nil
+	out := all[:0]
+	for _, x := range all {
+		if x != fs {
+			out = append(out, x)
+		}
+	}
+	all = out
 	_ = os.RemoveAll(fs.Dir)
 }
 
